@@ -153,7 +153,7 @@ func runCodec(c string) string {
 			out = append(out, "c="+hx(ct)+" rt="+rs.step(ct))
 		}
 		return strings.Join(out, " | ")
-	case "R":
+	case "R", "XR":
 		key, iv := unhx(f[1]), unhx(f[2])
 		var chunks [][]byte
 		for _, h := range f[3:] {
@@ -856,9 +856,11 @@ func init() {
 			for _, ms := range small {
 				frames = append(frames, plainOf(r, ms, true))
 			}
-			for len(frames) < 40 {
+			for len(frames) < 38 {
 				frames = append(frames, plainOf(r, genMsgs(r, 3, 30, false), true))
 			}
+			// frames of nearly the maximal size (the checksum range must not wrap)
+			frames = append(frames, plainOf(r, sizedMsgs(r, 65535, false), true), plainOf(r, sizedMsgs(r, 65520, false), true))
 			region := func(p []byte) (int, int) { // [lo, hi): timestamp .. end of CRC, excluding the length field handled below
 				return 4, 18 + int(binary.LittleEndian.Uint16(p[16:])) + 4
 			}
@@ -870,9 +872,13 @@ func init() {
 			emitX := func(p []byte, mask []byte) { emit("X " + hx(p) + " " + hx(mask)) }
 			for fi, p := range frames {
 				_, hi := region(p)
+				big := len(p) > 4096
 				// every single-bit flip
 				for bit := 32; bit < 8*hi; bit++ {
 					if !inRegion(p, bit) {
+						continue
+					}
+					if big && bit%40009 != 3 && bit < 8*hi-64 {
 						continue
 					}
 					if tier != "thorough" && fi >= 8 && bit%5 != fi%5 {
@@ -917,6 +923,9 @@ func init() {
 				if tier != "thorough" {
 					step = 7
 				}
+				if big {
+					step = 52361
+				}
 				for start := 32 + fi%step; start < 8*hi; start += step {
 					w := 1 + r.intn(32)
 					if tier == "thorough" && fi < 4 {
@@ -946,6 +955,31 @@ func init() {
 					}
 					emitX(p, m)
 				}
+				// altered frames delivered in several block-aligned pieces (the check must not depend on the chunking)
+				if len(p) >= 64 {
+					for k := 0; k < 4; k++ {
+						q := append([]byte{}, p...)
+						bit := 32 + r.intn(8*hi-32)
+						for !inRegion(p, bit) {
+							bit = 32 + r.intn(8*hi-32)
+						}
+						q[bit/8] ^= 1 << uint(bit%8)
+						ct := crypt(encrypter([]byte("k"), nil), q)
+						var cs []string
+						switch k % 3 {
+						case 0:
+							cs = []string{hx(ct[:32]), hx(ct[32:])}
+						case 1:
+							for o := 0; o < len(ct); o += 32 {
+								cs = append(cs, hx(ct[o:o+32]))
+							}
+						default:
+							cut := 32 * (1 + r.intn(len(ct)/32-1))
+							cs = []string{hx(ct[:cut]), hx(ct[cut:])}
+						}
+						emit("XR " + hx([]byte("k")) + " - " + strings.Join(cs, " "))
+					}
+				}
 				// ... and of the ciphertext
 				key := []byte("k")
 				ct := crypt(encrypter(key, nil), p)
@@ -968,6 +1002,12 @@ func init() {
 				return ""
 			}
 			if f[0] == "XC" {
+				return ""
+			}
+			if f[0] == "XR" {
+				if strings.Contains(res, "ACCEPT") {
+					return "a checksummed frame with one flipped bit is accepted when it is delivered in several pieces"
+				}
 				return ""
 			}
 			p, mask := unhx(f[1]), unhx(f[2])
